@@ -172,11 +172,14 @@ def _schema_cases(tier):
         g = ('<xs:simpleType name="S"><xs:restriction base="xs:%s">%s</xs:restriction></xs:simpleType><xs:simpleType name="S2"><xs:restriction base="S"><xs:pattern value=".*"/></xs:restriction></xs:simpleType>'
              '<xs:simpleType name="O"><xs:restriction base="xs:gDay"><xs:pattern value=".*"/></xs:restriction></xs:simpleType>' % (T, facet))
         out.append(('restriction-chain:' + T, 'restriction', T, '<xs:element name="c" type="S2" maxOccurs="unbounded"/><xs:element name="d" minOccurs="0"><xs:complexType><xs:simpleContent>'
-                    '<xs:extension base="S2"><xs:attribute name="b" type="S"/></xs:extension></xs:simpleContent></xs:complexType></xs:element>', '<xs:attribute name="a" type="S2"/>',
-                    [('<c>%s</c><d b="%s">%s</d>' % (lit, lit, lit), ' a="%s"' % lit,
-                      {'c': [(T, lit)], 'd': [(T, lit)], 'attrs': {'a': (T, lit)}, 'paths': [('/r/d/@b', 'attribute', (T, lit))],
+                    '<xs:extension base="S2"><xs:attribute name="b" type="S"/></xs:extension></xs:simpleContent></xs:complexType></xs:element>'
+                    '<xs:element name="e" type="xs:%s" minOccurs="0"/>' % T, '<xs:attribute name="a" type="S2"/><xs:attribute name="z" type="xs:%s"/>' % T,
+                    [('<c>%s</c><d b="%s">%s</d><e>%s</e>' % (lit, lit, lit, lit), ' a="%s" z="%s"' % (lit, lit),
+                      {'c': [(T, lit)], 'd': [(T, lit)], 'attrs': {'a': (T, lit)}, 'paths': [('/r/d/@b', 'attribute', (T, lit)), ('/r/e', 'element', (T, lit)), ('/r/@z', 'attribute', (T, lit))],
                        'user': [('/r/c[1]', 'element', 'S2', True), ('/r/c[1]', 'element', 'S', True), ('/r/c[1]', 'element', 'O', False), ('/r/@a', 'attribute', 'S2', True), ('/r/@a', 'attribute', 'S', True),
-                                ('/r/@a', 'attribute', 'O', False), ('/r/d/@b', 'attribute', 'S', True)]})], g))
+                                ('/r/@a', 'attribute', 'O', False), ('/r/d/@b', 'attribute', 'S', True),
+                                # a node declared with the BASE type is not an instance of the derived user types, although its value is valid for them
+                                ('/r/e', 'element', 'S', False), ('/r/e', 'element', 'S2', False), ('/r/@z', 'attribute', 'S', False), ('/r/d/@b', 'attribute', 'S2', False)]})], g))
     # --- declarations reached through a substitution group or a wildcard (apply_schema looks the global element up by name) ---
     for head_t, sub_t, lit_h, lit_s in (('integer', 'byte', '300', '5'), ('decimal', 'int', '1.5', '7'), ('string', 'NCName', 'x y', 'b1'), ('anySimpleType', 'date', None, '2000-02-29')):
         g = '<xs:element name="hd" type="xs:%s"/><xs:element name="sb" type="xs:%s" substitutionGroup="hd"/>' % (head_t, sub_t)
